@@ -104,9 +104,10 @@ def ref_exact_step(rs, x, t, log, pos):
     return pos, w, clocks[w]
 
 
-def ref_path(rs, x0, t0, T, exact, log, pre_tau=None):
+def ref_path(rs, x0, t0, T, exact, log, pre_tau=None, partial=False):
     """Replay the reference process against the draw log of the implementation.
-    Returns dict(X, J, T, end) or raises Mismatch."""
+    Returns dict(X, J, T, end, used) or raises Mismatch.  partial=True: the log may continue
+    (draws of the next run of an ensemble); 'used' is the number of draws this run consumed."""
     x = [int(v) if float(v).is_integer() else float(v) for v in x0]
     t = float(t0)
     X, TT, J, DT = [list(x)], [t], [], []
@@ -154,16 +155,19 @@ def ref_path(rs, x0, t0, T, exact, log, pre_tau=None):
                 break
             x, t = xn, t + dt
             X.append(list(x)); TT.append(t); J.append(n); DT.append(dt)
-    if pos != len(log):
+    if pos != len(log) and not partial:
         raise Mismatch("extra-draws", used=pos, made=len(log), next=log[pos][0])
-    return {"X": X, "T": TT, "J": J, "DT": DT, "end": end}
+    return {"X": X, "T": TT, "J": J, "DT": DT, "end": end, "used": pos}
 
 
-def check_raw_path(rs, x0, t0, T, exact, out, log, pre_tau=None):
+def check_raw_path(rs, x0, t0, T, exact, out, log, pre_tau=None, partial=False, used=None):
     """out = (X, J, T) arrays of one run from solve_stochast(T scalar, full_output).
-    Returns None or a Mismatch describing the first discrepancy."""
+    Returns None or a Mismatch describing the first discrepancy.  With partial=True the number of
+    draws consumed is appended to the list `used`."""
     try:
-        rp = ref_path(rs, x0, t0, T, exact, log, pre_tau=pre_tau)
+        rp = ref_path(rs, x0, t0, T, exact, log, pre_tau=pre_tau, partial=partial)
+        if used is not None:
+            used.append(rp["used"])
     except Mismatch as m:
         return m
     X, J, TT = out
